@@ -102,7 +102,8 @@ def make_object(case):
                 for j in range(n):
                     p.totalCorr.data[p.sys.domain.r <= min((sd['diam'][i] + sd['diam'][j]) / 2.0, 0.35 * float(p.sys.domain.r[-1])), i, j] = -1.0
         p.directCorr.data = sym(rs.normal(size=(L, n, n))) * 0.02 / (1 + k * k); p.directCorr.space = Space.Fourier
-        p.omega.data = sym(np.abs(rs.normal(size=(L, n, n))) + 0.5) * p.sys.density.site.data / (1 + 0.1 * k * k); p.omega.space = Space.Fourier
+        # written INTO the buffer the constructor allocated (its dtype is the constructor's business)
+        p.omega.data[...] = sym(np.abs(rs.normal(size=(L, n, n))) + 0.5) * p.sys.density.site.data / (1 + 0.1 * k * k); p.omega.space = Space.Fourier
         class R: pass
         p.minimize_result = None
     return p
@@ -122,6 +123,14 @@ def suite_ops(ctx, case):
     pristine = copy.deepcopy(p)
     can0 = canon(pristine)
     scale0 = [max(1.0, float(np.max(np.abs(a)))) for a in can0]
+    err_outer = np.seterr(all='ignore')          # set (not a `with` block, which would silently repair a leaked setting on exit) and compared after every call
+    try:
+        run_ops(ctx, case, p, pristine, can0, scale0, n)
+    finally:
+        np.seterr(**err_outer)
+
+def run_ops(ctx, case, p, pristine, can0, scale0, n):
+    err_mine = np.geterr()
     for step, op in enumerate(case['ops']):
         sub = dict(case, ops=case['ops'][:step + 1])
         if op == 'resolve':
@@ -147,11 +156,14 @@ def suite_ops(ctx, case):
             continue
         else:
             try:
-                with np.errstate(all='ignore'):
-                    out = do_op(p, op)
+                out = do_op(p, op)
             except Exception as e:
                 ctx.pred('ops', sub, False, '%s raised %s: %s' % (op, type(e).__name__, str(e)[:120]), key='C06:raises:' + op.rstrip('01HP'))
                 return
+            # nothing process-wide is left behind either: NumPy's floating-point error handling is what it was before the call
+            err_now = np.geterr(); np.seterr(**err_mine)
+            ctx.pred('ops', sub, err_now == err_mine, '%s returned with NumPy\'s error handling changed to %r (later calls - a re-solve, pmf - behave differently)' % (op, err_now), key='C06:global-state')
+            ctx.pred('ops', sub, all(m.data.dtype == np.float64 for m in (p.omega, p.totalCorr, p.directCorr)), 'after %s a stored array has dtype %s' % (op, [str(m.data.dtype) for m in (p.omega, p.totalCorr, p.directCorr)]), key='C06:corrupts:dtype')
             # post-processing never touches the grids of the object's own Domain (every later transform uses them)
             dm = p.sys.domain; dm0 = pristine.sys.domain
             ctx.pred('ops', sub, bool(np.array_equal(dm.k, dm0.k) and np.array_equal(dm.r, dm0.r) and np.array_equal(dm.DST_II_coeffs, dm0.DST_II_coeffs)
@@ -228,6 +240,10 @@ def generate(ctx):
         sd = gen_sys(rng, n, ctx.n(32, 64))
         solved = rng.random() < 0.35
         if rng.random() < 0.3: sd['dom_from_dk'] = True
+        if rng.random() < 0.3:
+            # the LAST pair's omega is a single-precision table
+            Lg = sd['dom'][0]; last = '%d%d' % (sd['n'] - 1, sd['n'] - 1)
+            sd['pairs'][last]['om'] = ['arr32', 0] + [float(np.float32(1.0 + 3.0 * math.exp(-0.5 * ((q + 1) / Lg * 6) ** 2))) for q in range(Lg)]
         obj = ['solved', rng.choice(['krylov', 'krylov', 'hybr', 'anderson'])] if solved else ['hand', rng.randrange(10 ** 6)]
         ops = gen_ops(rng, maxlen, solved)
         case = {'sys': sd, 'obj': obj, 'ops': ops}
